@@ -594,8 +594,8 @@ def r01f(ctx, classes: List[ClassInfo]):
                  and arg(x, 0, 'discrete') == ('const', True))),
         }
         for name, pred in specs.items():
-            g = ci.getters.get(name)
-            if g is None:
+            g = ctx.repo.find_getter(ci, name)      # own or inherited (shared base getter)
+            if g is None or not returning(paths(ctx.repo, g)):
                 continue
             n += 1
             for p in returning(paths(ctx.repo, g)):
@@ -610,8 +610,8 @@ def r01f(ctx, classes: List[ClassInfo]):
                        'count of alive elements of the corresponding discrete mask' if ok else
                        f'{name} is {short(t)}: not the element count of the discrete mask that '
                        f'forward/export use', where(g))
-        g = ci.getters.get('dilation_opt')
-        if g is not None:
+        g = ctx.repo.find_getter(ci, 'dilation_opt')
+        if g is not None and returning(paths(ctx.repo, g)):
             n += 1
             for p in returning(paths(ctx.repo, g)):
                 t = p.retval
